@@ -739,7 +739,7 @@ pub fn main(tier: Tier) -> i32 {
         }
     }
     if base_acc == 0 {
-        machinery_failure("no base transaction passed the signer's check: the grid would be vacuous");
+        run.vacuous("no base transaction passed the signer's check");
     }
     run.assume(&format!("arithmetic profile: {}", profile));
     run.assume("reference: every output is classified independently (wallet-derivable at the presented path in native / wrapped / taproot form, allowlisted script, address derived from an allowlisted xpub at the presented path, funding output of a channel the node funds); passing requires version 2, no unknown / mismatching output, every funding rule, all inputs segwit when a channel is funded, (inputs - beneficial) x 1000 <= max fee rate x an upper bound of the signed weight, and cumulative non-beneficial value within the hourly fee velocity limit; a report of unknown destinations must list exactly the outputs the reference classifies as unknown");
